@@ -18,24 +18,16 @@ def is_increment(st, field="self.auth_fail_count"):
     return False
 
 
-def run(prog, chk):
-    fold = Folder(prog)
-    chk.explanation = (
-        "Decided structurally in AuthHandler._parse_userauth_request / _send_auth_result: (R1) the service "
-        "test and (R2) the username test dominate every application callback and every reply, their failing "
-        "arms disconnect and return; (R3) auth_username is written only there, after both tests and before "
-        "any callback (so even a probe pins the name), and the per-connection AuthHandler is created only "
-        "once (a rekey does not reset it); (R4) the disconnect helpers send MSG_DISCONNECT and close the "
-        "transport; (R5) every non-partial failure increments auth_fail_count exactly once, the counter has "
-        "no other writer and is never reset, and count >= 10 disconnects after the reply.")
-    chk.assumptions = ["Transport.close() clears `active`, the run-loop condition (C13)"]
+def pin_rules(prog, chk, prefix=""):
+    """R1-R3: service / username guards and the username pin (shared with C14)."""
     ar = prog.func("AuthHandler._parse_userauth_request")
     fl = Flow(prog, ar, env={"self.transport.server_mode": True, "self.authenticated": False})
     callbacks = [n for (n, c) in fl.nodes_with_call() if (dotted(c.func) or "").startswith("self.transport.server_object.")]
     replies = [n for (n, c) in fl.nodes_with_call(name="self._send_auth_result")] + \
               [n for (n, c) in fl.nodes_with_call(name="self._interactive_query")]
-    chk.floor("R1", "application callbacks in _parse_userauth_request", len(callbacks), 6)
+    chk.floor(prefix + "R1", "application callbacks in _parse_userauth_request", len(callbacks), 6)
     # R1 service
+    g = g2 = None
     svc = fl.nodes(lambda n: n.kind == "cond" and unparse(n.ast) in ("service != 'ssh-connection'", "service == 'ssh-connection'"))
     ok = len(svc) == 1
     if ok:
@@ -48,7 +40,7 @@ def run(prog, chk):
         ok = ok and bool(dis) and not any(c.id in r for c in callbacks + replies)
         sd = fl.defs("service", svc[0])
         ok = ok and all(rhs is not None and unparse(rhs) == "m.get_text()" for (d, rhs) in sd)
-    chk.ob("R1.service-guard", "_parse_userauth_request", ok, ar.loc, "service != 'ssh-connection' => disconnect + return before any callback or reply")
+    chk.ob(prefix + "R1.service-guard", "_parse_userauth_request", ok, ar.loc, "service != 'ssh-connection' => disconnect + return before any callback or reply")
     # R2 username
     un = fl.nodes(lambda n: n.kind == "cond" and unparse(n.ast) in ("self.auth_username != username", "self.auth_username == username"))
     nn = fl.nodes(lambda n: n.kind == "cond" and unparse(n.ast) in ("self.auth_username is not None", "self.auth_username is None"))
@@ -68,28 +60,28 @@ def run(prog, chk):
         ok = ok and bool(dis) and not any(c.id in r for c in callbacks + replies)
         ud = fl.defs("username", un[0])
         ok = ok and all(rhs is not None and unparse(rhs) == "m.get_text()" for (d, rhs) in ud)
-    chk.ob("R2.username-guard", "_parse_userauth_request", ok, ar.loc, "a different username => disconnect + return before any callback or reply")
+    chk.ob(prefix + "R2.username-guard", "_parse_userauth_request", ok, ar.loc, "a different username => disconnect + return before any callback or reply")
     # R3 pin
     pin = fl.nodes(lambda n: n.kind == "stmt" and isinstance(n.ast, ast.Assign) and unparse(n.ast.targets[0]) == "self.auth_username")
     ok = len(pin) == 1 and unparse(pin[0].ast.value) == "username"
-    if ok and svc and un:
-        ok = fl.dominated(pin, guard_edge=g) and fl.dominated(pin, guard_edge=g2)
+    if ok:
+        ok = g is not None and g2 is not None and fl.dominated(pin, guard_edge=g) and fl.dominated(pin, guard_edge=g2)
         ok = ok and fl.dominated(callbacks + replies, guard_nodes=pin)
-    chk.ob("R3.pin-before-callbacks", "_parse_userauth_request", ok, ar.loc,
+    chk.ob(prefix + "R3.pin-before-callbacks", "_parse_userauth_request", ok, ar.loc,
            "auth_username = username after both tests and before every callback/reply (a probe pins the name)")
     writers = []
     for f in prog.all_functions():
         for (st, t, v) in attr_writes(f.node):
             if t.attr == "auth_username":
                 writers.append(f.qual)
-    chk.ob("R3.auth-username-writers", "AuthHandler", sorted(set(writers)) == ["AuthHandler.__init__", "AuthHandler._parse_userauth_request"],
+    chk.ob(prefix + "R3.auth-username-writers", "AuthHandler", sorted(set(writers)) == ["AuthHandler.__init__", "AuthHandler._parse_userauth_request"],
            ar.loc, "writers: %s" % sorted(set(writers)))
     # the handler object (holding the pin and the counter) is created once per connection
     pn = prog.func("Transport._parse_newkeys")
     fp = Flow(prog, pn)
     cr = fp.nodes(lambda n: n.kind == "stmt" and isinstance(n.ast, ast.Assign) and unparse(n.ast.targets[0]) == "self.auth_handler")
     ok = len(cr) == 1 and fp.dominated(cr, guard_edge=fp.edge_guard(lambda t: unparse(t) == "self.auth_handler is None", "T"))
-    chk.ob("R3.auth-handler-created-once", "Transport._parse_newkeys", ok, pn.loc, "AuthHandler(self) only when none exists; a rekey keeps pin and counter")
+    chk.ob(prefix + "R3.auth-handler-created-once", "Transport._parse_newkeys", ok, pn.loc, "AuthHandler(self) only when none exists; a rekey keeps pin and counter")
     srv_creators = []
     for f in prog.all_functions():
         if f.cls is not None and prog.is_subclass(f.cls.name, "Transport"):
@@ -97,6 +89,21 @@ def run(prog, chk):
                 if t.attr == "auth_handler" and isinstance(t.value, ast.Name) and t.value.id == "self" and M.is_call(v):
                     srv_creators.append(f.qual)
     chk.note("auth_handler creators (server: _parse_newkeys; the auth_* methods are client side): %s" % sorted(set(srv_creators)))
+
+
+
+def run(prog, chk):
+    fold = Folder(prog)
+    chk.explanation = (
+        "Decided structurally in AuthHandler._parse_userauth_request / _send_auth_result: (R1) the service "
+        "test and (R2) the username test dominate every application callback and every reply, their failing "
+        "arms disconnect and return; (R3) auth_username is written only there, after both tests and before "
+        "any callback (so even a probe pins the name), and the per-connection AuthHandler is created only "
+        "once (a rekey does not reset it); (R4) the disconnect helpers send MSG_DISCONNECT and close the "
+        "transport; (R5) every non-partial failure increments auth_fail_count exactly once, the counter has "
+        "no other writer and is never reset, and count >= 10 disconnects after the reply.")
+    chk.assumptions = ["Transport.close() clears `active`, the run-loop condition (C13)"]
+    pin_rules(prog, chk)
 
     # R4 disconnect helpers ----------------------------------------------------------------------
     cenv = fold.module_env("common")
